@@ -237,7 +237,7 @@ func (p *Prog) origins(v ssa.Value) []ssa.Value {
 		case *ssa.Extract:
 			// one result of a plain helper: what the helper returns in that position
 			if cc, isC := x.Tuple.(*ssa.Call); isC {
-				if h := p.calleeOf(cc); h != nil && p.isPlainHelper(h) {
+				if h := p.calleeOf(cc); h != nil && p.isPlainHelper(h) && p.queueWrapper(h) == nil {
 					n := 0
 					enter(cc, h, func() {
 						eachInstrLocal(h, func(in ssa.Instruction) {
@@ -255,7 +255,7 @@ func (p *Prog) origins(v ssa.Value) []ssa.Value {
 			out = append(out, v)
 		case *ssa.Call:
 			// the single result of a plain helper: what the helper returns
-			if h := p.calleeOf(x); h != nil && p.isPlainHelper(h) && h.Signature.Results().Len() == 1 {
+			if h := p.calleeOf(x); h != nil && p.isPlainHelper(h) && h.Signature.Results().Len() == 1 && p.queueWrapper(h) == nil {
 				n := 0
 				enter(x, h, func() {
 					eachInstrLocal(h, func(in ssa.Instruction) {
